@@ -326,7 +326,8 @@ namespace BitSerializer::Convert::Detail
 			CDateTimeParts utc{};
 			pos = parseDatetimePart(pos, end, utc.Year, std::nullopt, std::nullopt, '-', true);
 			pos = parseDatetimePart(pos, end, utc.Month, 1, 12, '-');
-			pos = parseDatetimePart(pos, end, utc.Day, 1, DaysInMonth[utc.Month - 1], 'T');
+			const bool isLeapYear = utc.Year % 4 == 0 && (utc.Year % 100 != 0 || utc.Year % 400 == 0);
+			pos = parseDatetimePart(pos, end, utc.Day, 1, (utc.Month == 2 && !isLeapYear) ? 28 : DaysInMonth[utc.Month - 1], 'T');
 			pos = parseDatetimePart(pos, end, utc.Hour, 0, 23, ':');
 			pos = parseDatetimePart(pos, end, utc.Min, 0, 59, ':');
 			pos = parseDatetimePart(pos, end, utc.Sec, 0, 59);
